@@ -265,6 +265,13 @@ func workMain(args []string) int {
 			os.WriteFile(*out+".current.json", b, 0o644)
 		}
 		x := &X{Tier: *tier, Race: race, Stats: st}
+		x.IsKnown = func(sig string) bool { return matchKnown(known, sig) != nil }
+		x.NoteKnown = func(sig, detail string) {
+			wo.Known[sig]++
+			if _, ok := wo.KnownSample[sig]; !ok {
+				wo.KnownSample[sig] = detail
+			}
+		}
 		wd := armWatchdog(*propID, *seed, runSeed, *tier, race, params, *out)
 		v := prop.Execute(params, x)
 		wd.Stop()
